@@ -77,9 +77,9 @@ def parse_vc(path):
         return '\n'.join(buf), i
 
     def rx(s):
-        m = re.search(r'/(.*)/(?:\s*#(\d+))?(?:\s+as\s+(\w+))?\s*(<<<)?\s*$', s)
+        m = re.search(r'/(.*)/(?:\s*#(\d+))?(?:\s+as\s+(\w+))?(?:\s+\[([^\]]+)\])?\s*(<<<)?\s*$', s)
         if not m: raise ValueError(f'{path}:{i+1}: expected /regex/')
-        rx.alias = m.group(3)
+        rx.alias = m.group(3); rx.tag = m.group(4)
         return m.group(1), int(m.group(2) or 1)
 
     while i < len(lines):
@@ -135,8 +135,13 @@ def parse_vc(path):
         elif kw == 'proof':
             where = w[1]
             r, n = rx(s)
+            ptag = rx.tag; pline = i + 1
             text, i = heredoc(i)
             cur_fn.proofs.append((where, r, n, text))
+            if ptag:
+                cl = Clause('assert', ptag, text, cur_fn.path, None, pline)
+                cl.proof_index = len(cur_fn.proofs) - 1
+                cur_fn.tagged_proofs = getattr(cur_fn, 'tagged_proofs', []) + [cl]
         elif kw == 'end':
             cur_loop = None; section = None
         elif s[0] in '[*' and section is not None:
@@ -376,6 +381,8 @@ def splice_module(text, mod_path, fnspecs, gen, twin=False):
                 raise Unsupported(f'lost anchor: proof anchor /{rgx}/ #{nth} in {fs.path}')
             ls_, le_ = hits[nth - 1]
             pid = f'PROOF:{fs.path}:{n_p}'
+            for tc in getattr(fs, 'tagged_proofs', []):
+                if tc.proof_index == n_p: pid = tc.id
             block = f'\n        {MARK % pid} ' + ptext.strip('\n') + '\n'
             if where == 'before': edits.append((ls_, ls_, block.lstrip('\n') ))
             elif where == 'after': edits.append((le_, le_, block.rstrip('\n')))
@@ -392,7 +399,7 @@ def build(unit, out_dir, twin=False):
     # clause ids
     n = 0
     for fs in unit.fns:
-        allc = fs.requires + fs.ensures + [c for l in fs.loops for c in l.invariants + l.ensures + l.except_break]
+        allc = fs.requires + fs.ensures + [c for l in fs.loops for c in l.invariants + l.ensures + l.except_break] + getattr(fs, 'tagged_proofs', [])
         for c in allc:
             n += 1
             c.id = f'K{n}'
